@@ -263,13 +263,36 @@ let rec gen_list r (env : env) depth : expr * ek =
     | 10 -> (filt l "raw" [], ek)
     | 11 -> let (l2, ek2) = gen_list r env 0 in (call "merge" [ l; l2 ], join_ek ek ek2)
     | 12 -> if env.maps <> [] then (filt (pickl r env.maps) "keys" [], Strs) else (l, ek)
+    | 13 | 14 ->
+        (* a chain: a filter that hands its input through, then one that must build its own result *)
+        let pt = match rint r 4 with
+          | 0 -> filt l "default" [ EArr [] ] | 1 -> filt l "raw" [] | 2 -> filt l "slice" [ lint 0 ] | _ -> filt (filt l "raw" []) "default" [ EArr [ lint 1 ] ] in
+        (match rint r 5 with
+         | 0 -> (filt pt "merge" [ EArr [ small_lit r ] ], Mixed)
+         | 1 -> if ek <> Mixed then (filt pt "sort" [], ek) else (filt pt "reverse" [], ek)
+         | 2 -> (filt pt "reverse" [], ek)
+         | 3 -> (filt pt "slice" [ lint (rint r 2); lint (1 + rint r 3) ], ek)
+         | _ -> (filt (filt pt "merge" [ EArr [ small_lit r ] ]) "merge" [ EArr [ small_lit r ] ], Mixed))
     | _ -> base ()
 
 let gen_map r (env : env) depth : expr =
   let base () = if env.maps <> [] && rint r 10 < 8 then pickl r env.maps
     else EHash [ (lstr (pick r key_pool), small_lit r) ] in
+  (* hashes reached through a filter that hands its input, or an element of it, through *)
+  let passed () =
+    let m = base () in
+    match rint r 5 with
+    | 0 -> filt m "default" [ EHash [] ]
+    | 1 -> filt m "raw" []
+    | 2 -> filt (filt m "raw" []) "default" [ EHash [ (lstr "d", lint 1) ] ]
+    | 3 -> filt (EArr [ m; m ]) (pick r [| "first"; "last" |]) []
+    | _ -> (match List.filter (fun (_, ek) -> ek = Mixed) env.lists with
+            | [] -> filt m "raw" []
+            | ls -> filt (fst (pickl r ls)) (pick r [| "first"; "last" |]) []) in
   if depth <= 0 then base ()
-  else match rint r 5 with
+  else match rint r 8 with
+    | 5 | 6 -> filt (passed ()) "merge" [ EHash [ (lstr (pick r [| "color"; "k"; "j"; "sel" |]), small_lit r) ] ]
+    | 7 -> filt (filt (passed ()) "merge" [ EHash [ (lstr "c1", small_lit r) ] ]) "merge" [ base () ]
     | 0 -> filt (base ()) "merge" [ EHash [ (lstr (pick r key_pool), small_lit r); (lstr "w", small_lit r) ] ]
     | 1 -> filt (base ()) "merge" [ base () ]
     | 2 -> call "merge" [ base (); base () ]
@@ -462,7 +485,13 @@ let fixed_context () =
   let pi_ = hb_add hb "" (HoCell item) in
   let pl_ = hb_add hb "" (HoCell xs) in
   let pm_ = hb_add hb "" (HoCell m) in
-  let vars = [ ("xs", xs); ("ys", ys); ("ws", ws); ("ss", ss); ("is", is_); ("e", e); ("m", m); ("ns", ns);
+  let row1 = hb_add hb "a" (HoMap [ (s "id", i 1); (s "tags", inner_list) ]) in
+  let row2 = hb_add hb "a" (HoMap [ (s "id", i 2) ]) in
+  let a8 = arr "a" [ HvMap (MAny, HlOld (nat row1)); HvMap (MAny, HlOld (nat row2)); HvNull ] in
+  let rows = HvSlice (LAny, HlOld (nat a8), nat 0, nat 2, nat 3) in
+  let opts_ = hb_add hb "a" (HoMap [ (s "size", i 3); (s "nested", inner_map) ]) in
+  let opts = HvMap (MAny, HlOld (nat opts_)) in
+  let vars = [ ("rows", rows); ("options", opts); ("xs", xs); ("ys", ys); ("ws", ws); ("ss", ss); ("is", is_); ("e", e); ("m", m); ("ns", ns);
                ("sm", HvMap (MStrStr, HlOld (nat sm_))); ("im", HvMap (MIntStr, HlOld (nat imm)));
                ("it", item); ("pi", HvPtr (HlOld (nat pi_))); ("pl", HvPtr (HlOld (nat pl_))); ("pm", HvPtr (HlOld (nat pm_)));
                ("ar", HvArr (LInts, [ i 3; i 1; i 2 ])); ("aa", HvArr (LAny, [ s "u"; inner_list ]));
@@ -516,6 +545,23 @@ let catalogue_templates : (string * node list) list =
                         [ al (v_ "z"); set "z" (filt (v_ "z") "merge" [ v_ "o" ]); p (join (v_ "z")); set "xs" (lint 0); p (v_ "xs"); p (join (v_ "ys")) ]);
                 p (call "mm" [ v_ "xs" ]); t "|"; p (call "mm" [ v_ "ws"; v_ "ss" ]); t "|"; p (call "mm" []); t "|"; p (join (v_ "xs")) ];
     "apply-do", [ NApply (b "upper", [], [ p (join (v_ "ws")); set "ws" (lint 1) ]); p (v_ "ws"); NDo (filt (v_ "xs") "sort" []); p (join (v_ "xs")) ];
+    "pass-through-chains",
+      (let maps = [ v_ "options"; attr (v_ "options") "nested"; v_ "m"; attr (v_ "m") "b"; attr (v_ "it") "Meta"; attr (v_ "pi") "Meta";
+                    filt (v_ "rows") "first" []; filt (v_ "rows") "last" []; EItem (v_ "ns", lint 1); EItem (v_ "rows", lint 0) ] in
+       let pass_m = [ (fun e -> filt e "default" [ EHash [] ]); (fun e -> filt e "raw" []); (fun e -> filt (filt e "raw" []) "default" [ EHash [ (lstr "d", lint 1) ] ]);
+                      (fun e -> filt (EArr [ e ]) "first" []); (fun e -> filt (EArr [ e; e ]) "last" []) ] in
+       let lists = [ v_ "xs"; v_ "ws"; v_ "rows"; attr (v_ "m") "j"; attr (v_ "it") "Tags"; attr (v_ "pi") "Tags"; v_ "ys" ] in
+       let pass_l = [ (fun e -> filt e "default" [ EArr [] ]); (fun e -> filt e "raw" []); (fun e -> filt e "slice" [ lint 0 ]); (fun e -> filt (EArr [ e ]) "first" []) ] in
+       let build_l = [ (fun e -> filt e "merge" [ EArr [ lint 9 ] ]); (fun e -> filt e "reverse" []); (fun e -> filt e "slice" [ lint 0; lint 2 ]);
+                       (fun e -> filt (filt e "merge" [ EArr [ lint 8 ] ]) "merge" [ EArr [ lint 7 ] ]) ] in
+       List.concat_map (fun mexp -> List.concat_map (fun pf ->
+           [ p (join (filt (filt (pf mexp) "merge" [ EHash [ (lstr "color", lstr "red") ] ]) "keys" [])); t ";";
+             set "r" (filt (pf mexp) "merge" [ EHash [ (lstr "selected", ELit (LBool true)) ] ]); al (v_ "r"); t ";";
+             set "r2" (filt (filt (pf mexp) "merge" [ EHash [ (lstr "c1", lint 1) ] ]) "merge" [ v_ "options" ]); p (join (filt (v_ "r2") "keys" [])); t ";";
+             al mexp; t "|" ]) pass_m) maps
+       @ List.concat_map (fun lexp -> List.concat_map (fun pf -> List.concat_map (fun bf ->
+           [ al (bf (pf lexp)); set "r" (bf (pf lexp)); p (filt (v_ "r") "length" []); t ";" ]) build_l @ [ al lexp; t "|" ]) pass_l) lists
+       @ [ p (join (filt (filt (filt (v_ "ws") "raw" []) "default" [ EArr [] ]) "sort" [])); p (join (filt (filt (filt (v_ "m") "raw" []) "default" [ EHash [] ]) "keys" [])) ]);
     "print-raw", [ p (v_ "xs"); p (v_ "m"); p (v_ "ss"); p (v_ "im"); p (v_ "it"); p (v_ "pi"); p (v_ "ar"); p (v_ "ns"); p (v_ "nul"); p (v_ "e") ] ]
 
 let inc_templates r (env : env) : (string * node list) list =
